@@ -19,6 +19,8 @@ import Driver.C11
 import Driver.Um
 import Driver.C23
 import Driver.C28
+import Driver.C24
+import Driver.C25
 /-
   Model driver: reads one request per line on stdin (`<suite> <op> <args…>`), answers one
   line per request on stdout.  Imports models only (no Mathlib, no proofs).
@@ -47,6 +49,8 @@ def dispatch (fs : List String) : String :=
   | "c01" :: rest | "c02" :: rest | "c03" :: rest | "c04" :: rest | "c27" :: rest => Driver.um rest
   | "c23" :: rest => Driver.c23 rest
   | "c28" :: rest => Driver.c28 rest
+  | "c24" :: rest => Driver.c24 rest
+  | "c25" :: rest => Driver.c25 rest
   | _ => "bad-op"
 
 partial def loop (h : IO.FS.Stream) (out : IO.FS.Stream) : IO Unit := do
